@@ -552,12 +552,16 @@ def oracle_timers(pc, run, fails, aborted_ok, kind_fn=None):
     pending = {key: set() for key in pc["nodes"]}
     err = any(l[0] == 19 for l in run)
 
+    dropped = []          # (node, time): wake-ups requested and then cancelled / replaced (the graph slot keeps them: KF C03/C18)
+
     def spec_sched(key, now, started, when, tag):
         if (when <= now) if started else (when < now):
             return
         if tag != 0:
             for e in [e for e in pending[key] if e[1] == tag]:
                 pending[key].discard(e)
+                if e[0] != when:
+                    dropped.append((key, e[0]))
         pending[key].add((when, tag))
 
     for key in sorted(pc["nodes"]):
@@ -601,10 +605,13 @@ def oracle_timers(pc, run, fails, aborted_ok, kind_fn=None):
                     elif code in (2, 4):
                         for e in [e for e in pending[key] if e[1] == b]:
                             pending[key].discard(e)
+                            dropped.append((key, e[0]))
                     elif code == 3:
                         if pending[key]:
+                            dropped.append((key, min(pending[key])[0]))
                             pending[key].discard(min(pending[key]))
                     elif code == 5:
+                        dropped += [(key, e[0]) for e in pending[key]]
                         pending[key].clear()
                     elif code == 8:
                         break
@@ -627,7 +634,7 @@ def oracle_timers(pc, run, fails, aborted_ok, kind_fn=None):
                         continue
                     lost.append((key, e[0]))
                     fails.append((kind_fn(key, e[0]), "node %s pending %s never honoured (end %d)" % (key, e, end)))
-    return lost
+    return lost + dropped
 
 
 def oracle_clocks(pc, run, fails):
